@@ -76,7 +76,7 @@ TRANSLATED = {
  "C10": "the consumed plain one/zero iterator is the list of its items (any next/nth sequence, run with the translated methods); the five methods of ops::AccessIter and of bit_vector::Iter; OneIter<T>::{next, nth, next_back, size_hint} (word scans included); sparse_vector::{OneIter::{next, next_back, size_hint}, ZeroIter::{next_run, next, size_hint}, Iter::{next, next_back, size_hint}} and SparseVector::{one_iter, select_iter, zero_iter, select_zero_iter, iter}; rl_vector::{OneIter, ZeroIter, Iter}::{next, size_hint}",
  "C11": "BitVector::copy_bit_vec, RLVector::copy_bit_vec, SparseVector::copy_bit_vec (= the six From impls of support.rs), generic over the source (its len, count_ones and the items of its one_iter); FromIterator<bool> for BitVector",
  "C12": "RawVectorWriter::{push_bit, push_int, close_with_header, close}, IntVectorWriter::{push, close} (flush / write_header named by their model functions)",
- "C13": "RawVectorMapper::{bit, int, word, word_unchecked, count_ones}, IntVectorMapper::get (definitionally the in-memory accessors); the view constructors MappedSlice<T>::new, MappedBytes::new, RawVectorMapper::new, IntVectorMapper::new and their map_offset / map_len; MappedStr::new (the translated MappedBytes::new followed by the UTF-8 test, a named parameter)",
+ "C13": "RawVectorMapper::{bit, int, word, word_unchecked, count_ones}, IntVectorMapper::get (definitionally the in-memory accessors); the view constructors MappedSlice<T>::new, MappedBytes::new, RawVectorMapper::new, IntVectorMapper::new and their map_offset / map_len; MappedStr::new (the translated MappedBytes::new followed by the UTF-8 test, a named parameter); MappedOption<T>::new for any inner constructor",
  "C14": "every statement of every serialize_header / serialize_body (obligation: each is a `?`-joined serialize / write_all); skip_option (bounded copy named copyTakeSink) = the specified skip on every stream whose prefix is below 2^61",
  "C15": "SparseVector::try_from_iter (size_hint, next_back, multiset builder, try_set chain, try_from), SparseVector::is_multiset",
  "C16": "RLBuilder::{count_zeros, code_len, flush, set_run_unchecked, set_bit_unchecked, try_set, set_len}, SparseBuilder::{is_full, capacity, universe, next_index, is_multiset, is_empty, set_unchecked, try_set, get_params, new, multiset}, SparseVector::try_from(builder), SparseBuilder::{set, extend}, RLBuilder::{default, new, encode}",
